@@ -681,6 +681,33 @@ fn scalar_val<'tcx>(tcx: TyCtxt<'tcx>, env: TypingEnv<'tcx>, c: Const<'tcx>, ty:
                 }
             }
         }
+        ty::Ref(_, inner, _) if matches!(inner.kind(), ty::Array(e, _) if *e == tcx.types.u8) => {
+            // `&[u8; N]` literals (format_args! templates, byte strings): dump the bytes as hex
+            let cv = match c {
+                Const::Val(cv, _) => Some(cv),
+                _ => c.eval(tcx, env, rustc_span::DUMMY_SP).ok(),
+            };
+            let n = match inner.kind() {
+                ty::Array(_, len) => len.try_to_target_usize(tcx),
+                _ => None,
+            };
+            if let (Some(ConstValue::Scalar(mir::interpret::Scalar::Ptr(ptr, _))), Some(n)) = (cv, n) {
+                let (prov, off) = ptr.prov_and_relative_offset();
+                if let mir::interpret::GlobalAlloc::Memory(alloc) = tcx.global_alloc(prov.alloc_id()) {
+                    let a = alloc.inner();
+                    let start = off.bytes_usize();
+                    let end = start + n as usize;
+                    if end <= a.len() && n <= 4096 {
+                        let bytes = a.inspect_with_uninit_and_ptr_outside_interpreter(start..end);
+                        let mut hex = String::with_capacity(bytes.len() * 2);
+                        for b in bytes {
+                            let _ = write!(hex, "{:02x}", b);
+                        }
+                        let _ = write!(out, ",\"bytes\":\"{}\"", hex);
+                    }
+                }
+            }
+        }
         _ => {}
     }
 }
